@@ -8,6 +8,8 @@
 uint64_t vf_in[VF_MAX_IN];
 unsigned vf_nin, vf_navail;
 int vf_nowrap;
+int vf_cpu_avx;
+int vf_cpu_supports(const char* feature) { (void)feature; return vf_cpu_avx; }
 void VF_ENTRY(void);
 int main(int argc, char** argv) {
   if (argc > 1) {
